@@ -90,4 +90,11 @@ CHECKS = {
              'unary and in-place operator, copy, backwards (with and without reactant), conversion assignment on reactions, items and sets is compared with the value semantics (stoichiometry, reactant, X), '
              'operands must be unchanged and results must be new objects.',
         note='Trusted: TLC; the projection (reaction._stoichiometry, _reactant_index, X; stream.mol) rounded to rationals with denominators <= 2^20; dyadic data so that the mol-basis path is exact.'),
+    'C19': dict(
+        engine='NetworkOrder', category='model_checking',
+        technique='TLA+ spec of the acceptable simulation orders as a nondeterministic scheduler (NetworkOrder.tla) model-checked by TLC over every flowsheet of the unit universe; paths of the real Network.from_units validated by TLC as behaviours of the scheduler',
+        text='TLC shows for every DAG over 3-4 units plus up to two back-edges that the scheduler (emit a unit once all its feeders are emitted or share its strongly connected component) never gets stuck and only '
+             'produces linear extensions modulo loops, so the contract is satisfiable and not vacuous; each of those flowsheets is built from real units and Network.from_units is run for every permutation of the '
+             'unit list, as are random connected flowsheets of 5-10 units with 0-3 back-edges; TLC checks completeness, single occurrence (acyclic case), order, and recycle reporting on every recorded path.',
+        note='Trusted: TLC; the flattening of Network.path and get_all_recycles(); "common recycle loop" = same strongly connected component.'),
 }
